@@ -49,6 +49,13 @@ def old_disk():
     return db.build([("OLDFILE", "BIN", 2, 0, 0x2000, 0x2002, OLD_DATA)])
 
 
+def big_tape_ff_at_dir():
+    # a long cassette image with $FF exactly where a disk image has the first byte of its first directory entry
+    data = [0x41] * 170000
+    data[76511] = 0xFF
+    return tape.tape_file("BIG", 2, 0, 0x1000, 0x1000, data)
+
+
 PRE = {
     "absent": None,
     "empty": [],
@@ -57,6 +64,7 @@ PRE = {
     "raw": lambda: [0x86, 0x41, 0x39] * 5,
     "arbitrary": lambda: [(i * 37 + 5) % 251 for i in range(300)],
     "bigcas": big_tape,
+    "bigcas-ff": big_tape_ff_at_dir,
 }
 
 
@@ -436,7 +444,7 @@ class CliFileUtil:
                                 "k": "existing", "src": src, "pre": pre, "append": ap})
             # the complete matrix of the property for file_util.py: every target kind x append x every kind of existing content
             for dst in ("cas", "dsk", "bin"):
-                for pre in ("empty", "cas", "dsk", "raw", "arbitrary"):
+                for pre in ("empty", "cas", "dsk", "raw", "arbitrary", "bigcas-ff"):
                     for ap in (False, True):
                         out.append({"id": "fu/matrix/%s-to-%s/%s/%s" % (src, dst, pre, "append" if ap else "noappend"), "k": "matrix",
                                     "src": src, "dst": dst, "pre": pre, "append": ap})
